@@ -710,6 +710,12 @@ class Gen:
                 w.w("=%d" % default)
         w.w("):\n")
         inner = indent + "    "
+        if self.flag("docstrings") and self.b(1, 2):
+            # a multi-line docstring that mentions identifiers of the pool and contains two adjacent quote characters
+            names = [pn for (pn, _pb, _d) in f.params][:2] + [self.c(POOL)]
+            w.w(inner + '"""Uses %s; an empty string is written "" here.\n' % ", ".join(names))
+            w.w(inner + "%s = %s + 1 (not code)\n" % (names[-1], names[0] if names else "x"))
+            w.w(inner + '"""\n')
         if len(f.globals_declared) > 1 and self.b(1, 2):
             # one statement declaring several names
             w.w(inner + "global ")
@@ -909,7 +915,7 @@ def _inherited(cls, field):
     return out
 
 
-PFLAGS = ["header_collision", "package", "classes", "inheritance", "relative", "comprehensions", "two_comps_one_line", "nested", "global_stmt", "decoys", "dunder_call", "hanging_layout"]
+PFLAGS = ["header_collision", "package", "classes", "inheritance", "relative", "comprehensions", "two_comps_one_line", "nested", "global_stmt", "decoys", "dunder_call", "hanging_layout", "docstrings"]
 
 
 @st.composite
